@@ -11,10 +11,6 @@ Local Open Scope R_scope.
    every stored pair is affine with a two-sided inverse, and every tag position is at most the number of transforms *)
 Theorem C04_invariant_reachable : forall ops, Forall cm_op_ok ops -> cm_Inv (cm_final ROps ops (cm_init (F:=R))).
 Proof. exact cm_Inv_reachable. Qed.
-Theorem C04_tag_as_records_length : forall st n,
-  tag_lookup n (cm_tags (fst (cm_step ROps st (CTagAs n)))) = Some (List.length (cm_tr st)) /\
-  cm_tr (fst (cm_step ROps st (CTagAs n))) = cm_tr st.
-Proof. exact tag_as_records_length. Qed.
 
 (* points at tag `a` (position i) read at tag `b` (position j): unchanged if i = j; the forward matrices of steps
    i .. j-1 in that order if i < j; the inverse matrices of steps i-1 .. j in that order if i > j *)
@@ -30,12 +26,6 @@ Proof.
   intros st pts a b i j Hinv Ha Hb. split; [exact (do_transform_known st pts a b i j Ha Hb)|].
   apply convert_spec; [apply Hinv | exact (tag_lookup_bound st a i Hinv Ha) | exact (tag_lookup_bound st b j Hinv Hb)].
 Qed.
-(* attribute reads are do_transform from the tag the points were assigned at; assignment stores tag and points *)
-Theorem C04_attribute_protocol : forall st tag pts n i,
-  (cm_points st = Some (tag, pts) -> cm_step ROps st (CGetAttr n) = cm_step ROps st (CDoTransform pts tag n)) /\
-  (tag_lookup n (cm_tags st) = Some i ->
-   cm_step ROps st (CSetAttr n pts) = (MkCM (cm_tags st) (Some (n, pts)) (cm_tr st), Ok OutNone)).
-Proof. intros st tag pts n i. exact (conj (get_is_do_transform st tag pts n) (set_known_tag st n i pts)). Qed.
 
 (* A -> B -> C = A -> C for every order of the three tag positions; round trips return the original points *)
 Theorem C04_path_independent : forall tr i j k pts, Inv tr ->
@@ -46,6 +36,23 @@ Theorem C04_round_trip : forall tr i j pts, Inv tr -> (i <= List.length tr)%nat 
   convert ROps tr j i (convert ROps tr i j pts) = pts.
 Proof. exact round_trip. Qed.
 
+(* the same at the level of tag names, for any reachable state: reading A -> B and then B -> C is reading A -> C
+   (whatever the order of the three tags; an unknown C is refused either way), and B -> A gives the points back *)
+Theorem C04_tags_path_independent : forall st pts a b c q, cm_Inv st ->
+  do_transform ROps st pts a b = Ok q -> do_transform ROps st q b c = do_transform ROps st pts a c.
+Proof. exact do_transform_path_independent. Qed.
+Theorem C04_tags_round_trip : forall st pts a b q, cm_Inv st ->
+  do_transform ROps st pts a b = Ok q -> do_transform ROps st q b a = Ok pts.
+Proof. exact do_transform_round_trip. Qed.
+
+(* KNOWN FINDING tag_shadows_attribute: a tag named like an attribute of the class (a method such as "flip", or
+   "_points", "_transform", ...) is converted by do_transform but NOT by an attribute read: Python finds the attribute
+   and never calls __getattr__.  The model mirrors it (attr_shadowed). *)
+Theorem C04_attribute_read_shadowed_refuted : exists (st : cm_state (F:=R)) tag pts n,
+  cm_points st = Some (tag, pts) /\ tag_lookup n (cm_tags st) <> None /\
+  snd (cm_step ROps st (CGetAttr n)) <> snd (cm_step ROps st (CDoTransform pts tag n)).
+Proof. exact get_shadowed_refuted. Qed.
+
 (* whatever is done afterwards (more transforms, new tag names, assignments, reads), a conversion between two
    existing tags that are not re-tagged stays the same *)
 Theorem C04_append_preserves_conversions : forall ops st pts a b, Forall cm_op_ok ops -> cm_Inv st ->
@@ -53,21 +60,37 @@ Theorem C04_append_preserves_conversions : forall ops st pts a b, Forall cm_op_o
   (exists r, do_transform ROps st pts a b = Ok r) ->
   do_transform ROps (cm_final ROps ops st) pts a b = do_transform ROps st pts a b.
 Proof. exact do_transform_preserved. Qed.
-(* re-tagging moves exactly that name *)
-Theorem C04_retag_moves_only_that_tag : forall n m i tags,
-  tag_lookup n ((n, i) :: tags) = Some i /\ (n <> m -> tag_lookup m ((n, i) :: tags) = tag_lookup m tags).
-Proof. intros n m i tags. exact (conj (tag_lookup_same n i tags) (fun H => tag_lookup_other n m i tags H)). Qed.
 
-(* unknown tags are refused, state unchanged *)
+
+(* ================================================================================================================
+   definitional: pins the shape of the model; the content is carried by the traced ties / correspondence
+   ================================================================================================================ *)
+(* attribute reads (of names that are not attributes of the class) are do_transform from the tag the points were
+   assigned at; assignment stores tag and points *)
+Theorem C04_attribute_protocol_partial : forall st tag pts n i,
+  (attr_shadowed n = false -> cm_points st = Some (tag, pts) ->
+   cm_step ROps st (CGetAttr n) = cm_step ROps st (CDoTransform pts tag n)) /\
+  (tag_lookup n (cm_tags st) = Some i ->
+   cm_step ROps st (CSetAttr n pts) = (MkCM (cm_tags st) (Some (n, pts)) (cm_tr st), Ok OutNone)).
+Proof. intros st tag pts n i. exact (conj (get_is_do_transform st tag pts n) (set_known_tag st n i pts)). Qed.
+(* unknown tags are refused, state unchanged (validated by the correspondence and the oracle, not proved of the code) *)
 Theorem C04_unknown_tag_errors : forall st n pts a b,
   (tag_lookup n (cm_tags st) = None -> cm_step ROps st (CSetAttr n pts) = (st, Raise AttributeError)) /\
   (tag_lookup a (cm_tags st) = None \/ tag_lookup b (cm_tags st) = None ->
    cm_step ROps st (CDoTransform pts a b) = (st, Raise KeyError)) /\
-  (cm_points st = None -> cm_step ROps st (CGetAttr n) = (st, Raise ValueError)).
+  (attr_shadowed n = false -> cm_points st = None -> cm_step ROps st (CGetAttr n) = (st, Raise ValueError)).
 Proof.
   intros st n pts a b.
   exact (conj (set_unknown_tag st n pts) (conj (do_transform_unknown_tag st pts a b) (get_before_set st n))).
 Qed.
+Theorem C04_tag_as_records_length : forall st n,
+  tag_lookup n (cm_tags (fst (cm_step ROps st (CTagAs n)))) = Some (List.length (cm_tr st)) /\
+  cm_tr (fst (cm_step ROps st (CTagAs n))) = cm_tr st.
+Proof. exact tag_as_records_length. Qed.
+(* re-tagging moves exactly that name *)
+Theorem C04_retag_moves_only_that_tag : forall n m i tags,
+  tag_lookup n ((n, i) :: tags) = Some i /\ (n <> m -> tag_lookup m ((n, i) :: tags) = tag_lookup m tags).
+Proof. intros n m i tags. exact (conj (tag_lookup_same n i tags) (fun H => tag_lookup_other n m i tags H)). Qed.
 
 (* non-vacuity: a script in the style of the class docstring satisfies the hypotheses *)
 Example C04_ops_ok_inhabited :
@@ -75,7 +98,11 @@ Example C04_ops_ok_inhabited :
                    CTagAs "scaled"%string; CSetAttr "source"%string [V3 1 1 1]; CGetAttr "scaled"%string].
 Proof. repeat constructor. Qed.
 
+Example C04_not_shadowed_inhabited : attr_shadowed "source"%string = false.
+Proof. reflexivity. Qed.
+
 Definition C04_all := (C04_invariant_reachable, C04_tag_as_records_length, C04_do_transform_spec,
-  C04_attribute_protocol, C04_path_independent, C04_round_trip, C04_append_preserves_conversions,
+  C04_attribute_protocol_partial, C04_tags_path_independent, C04_tags_round_trip, C04_attribute_read_shadowed_refuted,
+  C04_path_independent, C04_round_trip, C04_append_preserves_conversions,
   C04_retag_moves_only_that_tag, C04_unknown_tag_errors).
 Print Assumptions C04_all.
